@@ -260,8 +260,11 @@ impl StarkProof {
         for access in public_memory {
             let page_id = Felt::from(access.page);
             let addr = Felt::from(access.address);
-            let val = Felt::from_hex(&access.value)
-                .map_err(|_| anyhow::anyhow!("Invalid memory value"))?;
+            // (parsed through BigUint: Felt::from_hex panics on some malformed strings)
+            let val = Felt::from(
+                BigUint::from_str_hex(&access.value)
+                    .ok_or(anyhow::anyhow!("Invalid memory value"))?,
+            );
 
             start_address.entry(page_id).or_insert(addr);
             if page_id == Felt::ZERO {
@@ -317,8 +320,10 @@ impl StarkProof {
         for cell in public_memory {
             let page_id = Felt::from(cell.page);
             let addr = Felt::from(cell.address);
-            let val =
-                Felt::from_hex(&cell.value).map_err(|_| anyhow::anyhow!("Invalid memory value"))?;
+            let val = Felt::from(
+                BigUint::from_str_hex(&cell.value)
+                    .ok_or(anyhow::anyhow!("Invalid memory value"))?,
+            );
 
             // Insert or get the vector for the current page_id
             let page = pages.entry(page_id).or_insert_with(Vec::new);
